@@ -29,13 +29,17 @@ TEMPLATE = """module decl
   logical, parameter :: l2 = EXPR2 .and. EXPR3
   integer, parameter :: arr(3) = [1, 2, 3]
   integer(kind=merge(4, 8, EXPR4)) :: k1
+  real(kind=pa1/1) :: halfk
+  character(len=9) :: ps
+  parameter (ps = 'LITJ')
+  integer :: noinit
   real :: d1(merge(2, 3, EXPR4))
   character(len=merge(2, 3, EXPR4)) :: c1
   real, dimension(2), target, save :: tgt = [1.0, 2.0]
   real, pointer :: ptr(:) => null()
   integer :: nl_var = 3
   character(len=9) :: nl_str = 'LITJ'
-  namelist /settings/ nl_var, nl_str
+  namelist /settings/ nl_var, nl_str, noinit
   type :: holder
     !! a type
     character(len=3) :: comp = 'LITI'
@@ -155,7 +159,8 @@ def compare(only=None):
 FRAGMENTS = {           # page -> pieces of declaration text that must be shown (derived-type prototypes are links: the text around the link must survive)
     "proc/show.html": ["type(holder)", "character(len=*)", "intent(in)", "character(len=9)"],
     "proc/twice.html": ["integer", "intent(in)", "optional", "logical", "intent(inout)"],
-    "module/decl.html": ["character(len=*)", "parameter", "character(len=7)", "dimension(2)", "integer(kind=merge(4,8,pa4+pb4))", "logical"],
+    "module/decl.html": ["character(len=*)", "parameter", "character(len=7)", "dimension(2)", "integer(kind=merge(4,8,pa4+pb4))", "logical", "real(kind=pa1/1)", "'LITJ'"],
+    "namelist/settings.html": ["nl_var", "nl_str", "noinit", "'LITJ'"],
     "type/holder.html": ["character(len=3)", "integer"],
 }
 
@@ -173,6 +178,9 @@ def shown_fragments():
         for f in frags:
             if f.replace(" ", "") not in text:
                 bad.append(f"{page}: the declaration text {f!r} is not shown")
+        for junk in ("../real(", "None", '"0"'):
+            if junk in base[page][1] and page in ("module/decl.html", "namelist/settings.html"):
+                bad.append(f"{page}: shows {junk!r}, which is not in the source")
     return bad
 
 
